@@ -92,12 +92,48 @@ _shard = kcommon.make_run(__name__, "observe")
 _chain = kcommon.make_chain_run(__name__, "observe", faults=True)
 
 
+def _judge_holes(ctx):
+    """Survivors keep payload, format, comment and dates; removed kinds are gone; decodable survivors read back."""
+    p, data = ctx["parsed"], ctx["data"]
+    if p is None:
+        return [("unparsable", "file no longer parses")]
+    want = {r["type"]: r for r in ctx["records"] if r["type"] not in ctx["removed"]}
+    got = [e for e in p["entries"] if e["type"] != 0]
+    types = [e["type"] for e in got]
+    if sorted(types) != sorted(want):
+        return [("block-lost" if set(want) - set(types) else "removed-kind-present",
+                 f"file has {[str(R.NAMES.get(t, t)) for t in types]}, expected {[str(R.NAMES.get(t, t)) for t in want]}")]
+    for e in got:
+        r = want[e["type"]]
+        name = R.NAMES.get(e["type"], e["type"])
+        if R.payload(data, e) != r["payload"]:
+            return [("payload-changed", f"{name}: stored bytes differ from the original block")]
+        if (e["format"], e["comment"], e["ctime"], e["mtime"]) != (r["format"], r["comment"], r["ctime"], r["mtime"]):
+            return [("metadata-changed", f"{name}: format / comment / dates {(e['format'], e['comment'], e['ctime'], e['mtime'])} "
+                                         f"vs {(r['format'], r['comment'], r['ctime'], r['mtime'])}")]
+        if e["type"] in R.WRITABLE:
+            try:
+                back = specs.lib_encode(ctx["tdf"].get_block(specs.lib().block.BlockType(e["type"])))
+            except Exception as x:  # noqa: BLE001
+                return [("read-raises", f"get_block({name}) -> {type(x).__name__}: {x}")]
+            if back != r["payload"]:
+                return [("read!=stored", f"get_block({name}) returns content that encodes differently from the stored block")]
+    return []
+
+
+def _holes(_):
+    return kcommon.hole_removal_shard(PROP, _judge_holes)
+
+
 def run(tier):
     acc = kcommon.run_configs(__name__, tier)
+    acc.merge(core.pmap(__name__, "_holes", [0]))
     # straight-line histories in ONE context with reads in between (read-side hidden state)
     acc.merge(core.pmap(__name__, "_chain", [c.to_witness() for c in kcommon.chain_configs(tier, deep=True)]))
     return acc
 
 
 def replay(w):
+    if w.get("holes"):
+        return kcommon.hole_replay(w, PROP, _judge_holes)
     return kcommon.replay_any(w, observe)
